@@ -56,6 +56,9 @@ ASSUMPTIONS = [
     "cancel() must clean up the tree that stands when it is called and what a SIGTERM-surviving solver forks during the 0.5 s "
     "grace period (judged by the late-fork probes, fork triggered by the SIGTERM itself); forks after the final listing are "
     "outside the property",
+    "FunctionContext / SolvingContext construction and the registry-level shutdown are not in the Lean model: every executor "
+    "built by the real FunctionContext.__post_init__ (all option combinations that select a code path there) must be shut down "
+    "by ExecutorRegistry().shutdown_all() — checked on the real code only (function-context probes, scripted and real processes)",
     "solve_end_to_end is modelled by `pipeline` (core hit / first job / refinement / second job, eight kinds of solver reply); "
     "tied by the stub-solver runs (all reply pairs with scripted Popen, a few pairs with a real sh stub)",
     "real-subprocess verdicts never come from an elapsed-time threshold: readiness, survival and delivery are decided from "
@@ -2101,6 +2104,173 @@ def pipeline_real_stub(ctx, P, S):
             shutil.rmtree(d, ignore_errors=True)
 
 
+KEY_FCTX = "registry:function-context-executor-not-shut-down"
+
+
+def function_context_probe(ctx, real: bool):
+    """Executors created the way halmos creates them — by the real `FunctionContext.__post_init__` (solve.py), under every
+    combination of the options that select a code path there (dump_smt_directory set / unset, dump_smt_queries, verbose,
+    test function / constructor prefix) — each with a solver job that does not end by itself, started through the
+    function's thread pool and the real solve_low_level. Then the global shutdown, as on exit / SIGINT:
+    `ExecutorRegistry().shutdown_all()`. Afterwards, for EVERY function context: its executor is shut down, its solver
+    process is gone, the blocked solve_low_level returns, a new submit raises ShutdownError.
+    real=False: scripted Popen/psutil (a process that lives until it is terminated); real=True: `sleep` processes."""
+    import contextlib
+    import io
+    import itertools
+    import shutil
+    import tempfile
+    import psutil as real_psutil
+    P, S = mods()
+    combos = list(itertools.product((False, True), (False, True), (0, 1), ("check_x", None)))
+    # groups of three contexts alive at the same time (like several test functions of a run)
+    groups = [combos[i:i + 3] for i in range(0, len(combos), 3)]
+    if real:
+        groups = [[combos[0], combos[13], combos[6]], [combos[9], combos[2], combos[15]]]
+    procs = []
+
+    class LiveProc:
+        def __init__(self, cmd, **kw):
+            self.cmd, self.pid, self.gone = cmd, 7000 + len(procs), threading.Event()
+            self.returncode = None
+            self.stdout = self.stderr = self.stdin = None
+            procs.append(self)
+
+        def communicate(self, input=None, timeout=None):
+            if not self.gone.wait(timeout):
+                raise subprocess.TimeoutExpired(self.cmd, timeout)
+            return "", ""
+
+        def poll(self):
+            return self.returncode if self.gone.is_set() else None
+
+    class LivePs:
+        def __init__(self, pid):
+            self.pid = pid
+            self.p = next((p for p in procs if p.pid == pid and not p.gone.is_set()), None)
+            if self.p is None:
+                raise real_psutil.NoSuchProcess(pid)
+
+        def children(self, recursive=False):
+            return []
+
+        def terminate(self):
+            self.p.returncode = -15
+            self.p.gone.set()
+
+        def wait(self, timeout=None):
+            return self.p.returncode
+
+        def is_running(self):
+            return not self.p.gone.is_set()
+
+        def kill(self):
+            self.p.returncode = -9
+            self.p.gone.set()
+
+    old = (P.Popen, P.psutil, getattr(P.ExecutorRegistry, "_instance", None))
+    if not real:
+        P.Popen = LiveProc
+        P.psutil = types.SimpleNamespace(Process=LivePs, NoSuchProcess=real_psutil.NoSuchProcess,
+                                         TimeoutExpired=real_psutil.TimeoutExpired)
+    serial = [0]
+    try:
+        for group in groups:
+            P.ExecutorRegistry._instance = None
+            del procs[:]
+            root = tempfile.mkdtemp(prefix="c17_fctx_")
+            made = []      # (desc, fctx, pool future, token)
+            try:
+                for custom, dump_queries, verbose, name in group:
+                    serial[0] += 1
+                    token = f"39.{__import__('os').getpid() % 100000:05d}{serial[0]:03d}"
+                    cmd = ["sh", "-c", f"exec sleep {token}", "stub"] if real else ["stub-solver"]
+                    args = types.SimpleNamespace(
+                        dump_smt_directory=(str(Path(root, f"dump{serial[0]}")) if custom else None),
+                        dump_smt_queries=dump_queries, verbose=verbose, solver_threads=2,
+                        resolved_solver_command=cmd, solver_timeout_assertion=0, cache_solver=False)
+                    desc = {"kind": "function-context", "real": real, "dump_smt_directory": custom,
+                            "dump_smt_queries": dump_queries, "verbose": verbose, "function": name}
+                    with contextlib.redirect_stdout(io.StringIO()):
+                        fctx = S.FunctionContext(args=args, info=types.SimpleNamespace(name=name, sig="x()", selector="00"),
+                                                 solver=None, contract_ctx=types.SimpleNamespace(name="C"))
+                        quiet = types.SimpleNamespace(**{**vars(args), "verbose": 0})
+                        pctx = S.PathContext(args=quiet, path_id=serial[0], solving_ctx=fctx.solving_ctx,
+                                             query=S.SMTQuery(QUERY_PLAIN, ["1"]))
+                        fut = fctx.thread_pool.submit(S.solve_low_level, pctx)
+                    made.append((desc, fctx, fut, token))
+                    ctx.case(("function-context", real, custom, dump_queries, verbose, name))
+                    ctx.count(f"function-context:{'real' if real else 'scripted'}:dump_smt_directory={'set' if custom else 'unset'}")
+                # every solver process is up (decided by state)
+                t_end = time.time() + 60
+                def up(token):
+                    if real:
+                        return any(i[0][:1] == ["sleep"] for i in token_procs(token).values())
+                    return True
+                while time.time() < t_end and not (all(up(t) for *_x, t in made) and (real or len(procs) == len(made))):
+                    time.sleep(0.005)
+                if not (all(up(t) for *_x, t in made) and (real or len(procs) == len(made))):
+                    ctx.count("real:slow:function-context-solvers-not-up(no verdict)")
+                    continue
+                # the global shutdown, as halmos requests it on exit / on a signal
+                how, _info = bounded_shutdown(None, False, [], patience=120.0, call=lambda: P.ExecutorRegistry().shutdown_all())
+                if how != "ok":
+                    ctx.count(f"real:slow:shutdown_all-{how}(no verdict)")
+                    continue
+                for n, (desc, fctx, fut, token) in enumerate(made):
+                    ex = fctx.solving_ctx.executor
+                    down = ex.is_shutdown()
+                    if real:
+                        left = _settled_survivors([_TokenOnly(token)], patience=30.0) if not down else \
+                            _settled_survivors([_TokenOnly(token)], patience=60.0)
+                        alive = bool(left)
+                    else:
+                        alive = not procs[n].gone.is_set()
+                    accepted = False
+                    try:
+                        extra = P.PopenFuture(["true"] if real else ["stub-solver"])
+                        ex.submit(extra)
+                        accepted = True
+                    except P.ShutdownError:
+                        pass
+                    if not down or alive or accepted:
+                        ctx.violation(KEY_FCTX,
+                                      f"after ExecutorRegistry().shutdown_all(): the executor of a FunctionContext built with "
+                                      f"dump_smt_directory {'set' if desc['dump_smt_directory'] else 'unset'}, dump_smt_queries="
+                                      f"{desc['dump_smt_queries']}, verbose={desc['verbose']}, function={desc['function']}: "
+                                      f"is_shutdown()={down}, solver process still running={alive}, new submit accepted={accepted}, "
+                                      f"solve_low_level returned={fut.done()}", desc)
+                        continue
+                    # blocked waiter returns (state: executor down and process gone; only scheduling is left)
+                    t_w = time.time() + 90
+                    while not fut.done() and time.time() < t_w:
+                        time.sleep(0.005)
+                    if not fut.done():
+                        ctx.count("real:slow:function-context-waiter-pending-after-90s(no verdict)")
+            finally:
+                import os
+                import signal
+                for _d, fctx, _fut, token in made:
+                    if real:
+                        for pid in token_procs(token):
+                            with contextlib.suppress(OSError):
+                                os.kill(pid, signal.SIGKILL)
+                    for p in procs:
+                        p.gone.set()
+                    with contextlib.suppress(Exception):
+                        fctx.solving_ctx.executor.shutdown(wait=False)
+                    with contextlib.suppress(Exception):
+                        fctx.thread_pool.shutdown(wait=False)
+                    dd = fctx.solving_ctx.dump_dir
+                    if hasattr(dd, "cleanup"):
+                        with contextlib.suppress(Exception):
+                            dd.cleanup()
+                        shutil.rmtree(getattr(dd, "name", "/nonexistent-c17"), ignore_errors=True)
+                shutil.rmtree(root, ignore_errors=True)
+    finally:
+        P.Popen, P.psutil, P.ExecutorRegistry._instance = old
+
+
 # --------------------------------------------------------------------------------------------------------------------
 # entry points
 # --------------------------------------------------------------------------------------------------------------------
@@ -2204,9 +2374,9 @@ def correspond(ctx):
     rng = ctx.rng
     delays = ctx.scale(2, 3)
     cfgs = base_configs()
-    n_random_cfg = ctx.scale(8, 60)
+    n_random_cfg = ctx.scale(6, 60)
     cfgs += [random_config(rng) for _ in range(n_random_cfg)]
-    cap = ctx.scale(35, 280)           # schedules kept per (cfg, rotation)
+    cap = ctx.scale(27, 280)           # schedules kept per (cfg, rotation)
     reqs, meta = [], []
     for cfg in cfgs:
         njobs = cfg.split(":")[0].count(".") + 1
@@ -2315,7 +2485,7 @@ def correspond(ctx):
                 mismatches.append(f"[registry-probe] cfg {cfg}: {r.error}")
     ctx.note(f"t+{time.time() - ctx.t0:.0f}s: tree probes done")
     # --- 3. random walks chosen on the real code ------------------------------------------------------------------------
-    n_walks = ctx.scale(250, 4000)
+    n_walks = ctx.scale(200, 4000)
     for _ in range(n_walks):
         cfg = random_config(rng) if rng.random() < 0.7 else rng.choice(base_configs())
         stick = rng.choice([0.0, 0.5, 0.8, 0.95])
@@ -2374,6 +2544,8 @@ def correspond(ctx):
     # --- 5. real subprocesses ------------------------------------------------------------------------------------------
     real_process_runs(ctx, ctx.scale(17, 150), literals)
     pipeline_real_stub(ctx, *mods())
+    function_context_probe(ctx, real=False)
+    function_context_probe(ctx, real=True)
 
     if mismatch:
         mismatches.append(mismatch)
@@ -2397,6 +2569,10 @@ def follow_loose(labels):
 
 def replay(ctx, data) -> bool:
     d = data.get("replay", data)
+    if d.get("kind") == "function-context":
+        function_context_probe(ctx, real=bool(d.get("real")))
+        want = data.get("key")
+        return any(v["key"] == want for v in ctx.violations) if want else bool(ctx.violations)
     if d.get("kind") == "pipeline-real":
         pipeline_real_stub(ctx, *mods())
         want = data.get("key")
